@@ -9,6 +9,8 @@ pub fn dispatch(cmd: &str, c: &Value) -> Value {
     match cmd {
         "kmer_slide" => kmer_slide(c),
         "kmer_inv" => kmer_inv(c),
+        "tuple_roundtrip" => tuple_roundtrip(c),
+        "lz_roundtrip" => lz_roundtrip(c),
         _ => json!({"error": format!("unknown command {}", cmd)}),
     }
 }
@@ -44,4 +46,27 @@ fn kmer_inv(c: &Value) -> Value {
         13 15, 14 16, 15 17, 16 18, 17 19, 18 20, 19 21, 20 22, 21 23, 22 24, 23 25, 24 26, 25 27, 26 28,
         27 29, 28 30, 29 31, 30 32, 31 33, 32 34);
     json!({ "code": code })
+}
+
+// ---------------------------------------------------------------- C12 tuple packing
+pub fn tuple_roundtrip(c: &Value) -> Value {
+    use ragc_core::tuple_packing::{bytes_to_tuples, tuples_to_bytes};
+    let b = bytes(&c["b"]);
+    let packed = bytes_to_tuples(&b);
+    let unpacked = tuples_to_bytes(&packed);
+    json!({ "input": b, "packed": packed, "unpacked": unpacked })
+}
+
+// ---------------------------------------------------------------- C09 LZ diff
+pub fn lz_roundtrip(c: &Value) -> Value {
+    use ragc_core::lz_diff::LZDiff;
+    let r = bytes(&c["ref"]);
+    let t = bytes(&c["tgt"]);
+    let mm = c["mm"].as_u64().unwrap() as u32;
+    let mut lz = LZDiff::new(mm);
+    lz.prepare(&r);
+    let enc = lz.encode(&t);
+    let dec = if enc.is_empty() { r.clone() } else { lz.decode(&enc) };
+    let ok = dec == t && !enc.contains(&0xFF);
+    json!({ "enc": enc, "dec": dec, "ok": ok })
 }
